@@ -1,4 +1,7 @@
 import SuppModel.Props.C03
 #print axioms SuppModel.Props.C03.C03_origin
-#print axioms SuppModel.Props.C03.C03_undefined_only_from_entry
+#print axioms SuppModel.Props.C03.C03_precise
+#print axioms SuppModel.Props.C03.C03_exact
+#print axioms SuppModel.Props.C03.C03_possibly_undefined
 #print axioms SuppModel.Props.C03.C03_undefined
+#print axioms SuppModel.Props.C03.C03_undefined_only_from_entry
